@@ -253,33 +253,39 @@ Section Word.
   Qed.
 
   Hypothesis Hident : is_ident id = true.
-  Hypothesis Hafter : exists c r, post = c :: r.
 
-  (* GetVarStruct at any offset from the first byte of the word to the position just after its last byte *)
+  (* GetVarStruct at any offset from the first byte of the word to the position just after its last byte - also when
+     that position is the very end of the text (post = []: GetVarStruct steps back from offset = len(contents)) *)
   Theorem cut_name_word k : (k <= ni)%nat -> cut_name bs (N.of_nat (np + k)) = CutName id.
   Proof.
-    intros Hk. destruct Hafter as (pc & pr & Epost).
+    intros Hk.
     assert (Hni : (0 < ni)%nat).
     { unfold ni. destruct id; [discriminate|cbn; lia]. }
     assert (Hn : N.of_nat (length bs) = N.of_nat (np + ni + length post)).
     { unfold bs. rewrite !app_length. fold np ni. lia. }
-    assert (Hpl : (0 < length post)%nat) by (rewrite Epost; cbn; lia).
     unfold cut_name. rewrite Hn.
     replace (N.of_nat (np + ni + length post) =? 0) with false by (symmetry; apply N.eqb_neq; lia).
-    replace (N.of_nat (np + k) =? N.of_nat (np + ni + length post)) with false by (symmetry; apply N.eqb_neq; lia).
     cbv zeta.
     assert (Hcase : exists j, (j < ni)%nat /\
-              (if (0 <? N.of_nat (np + k)) && negb (is_idc (nthb bs (N.of_nat (np + k)))) then N.of_nat (np + k) - 1
-               else N.of_nat (np + k)) = N.of_nat (np + j)).
-    { destruct (Nat.eq_dec k ni) as [->|Hne].
-      - exists (ni - 1)%nat. split; [lia|].
-        assert (E : is_idc (nthb bs (N.of_nat (np + ni))) = false).
-        { unfold nthb, bs. rewrite Nat2N.id. rewrite app_nth2 by (unfold np; lia).
-          replace (np + ni - length pre)%nat with ni by (unfold np; lia). rewrite app_nth2 by (unfold ni; lia).
-          replace (ni - length id)%nat with 0%nat by (unfold ni; lia). rewrite Epost in *. cbn. exact Hpost. }
-        rewrite E. replace (0 <? N.of_nat (np + ni)) with true by (symmetry; apply N.ltb_lt; lia). cbn [andb negb]. lia.
-      - exists k. split; [lia|]. rewrite nthb_word_idc by lia. cbn [negb]. rewrite andb_false_r. reflexivity. }
-    destruct Hcase as (j & Hj & ->).
+              (let off1 := if N.of_nat (np + k) =? N.of_nat (np + ni + length post)
+                           then N.of_nat (np + k) - 1 else N.of_nat (np + k) in
+               if (0 <? off1) && negb (is_idc (nthb bs off1)) then off1 - 1 else off1) = N.of_nat (np + j)).
+    { cbv zeta. destruct (N.of_nat (np + k) =? N.of_nat (np + ni + length post)) eqn:Eend.
+      - (* the end of the text: k = ni, post = [] *)
+        apply N.eqb_eq in Eend. assert (k = ni /\ length post = 0%nat) as [-> Hp0] by lia.
+        exists (ni - 1)%nat. split; [lia|].
+        replace (N.of_nat (np + ni) - 1) with (N.of_nat (np + (ni - 1))) by lia.
+        rewrite nthb_word_idc by lia. cbn [negb]. rewrite andb_false_r. reflexivity.
+      - apply N.eqb_neq in Eend. destruct (Nat.eq_dec k ni) as [->|Hne].
+        + destruct post as [|pc pr] eqn:Epost; [cbn [length] in Eend; lia|].
+          exists (ni - 1)%nat. split; [lia|].
+          assert (E : is_idc (nthb bs (N.of_nat (np + ni))) = false).
+          { unfold nthb, bs. rewrite Nat2N.id. rewrite app_nth2 by (unfold np; lia).
+            replace (np + ni - length pre)%nat with ni by (unfold np; lia). rewrite app_nth2 by (unfold ni; lia).
+            replace (ni - length id)%nat with 0%nat by (unfold ni; lia). cbn. exact Hpost. }
+          rewrite E. replace (0 <? N.of_nat (np + ni)) with true by (symmetry; apply N.ltb_lt; lia). cbn [andb negb]. lia.
+        + exists k. split; [lia|]. rewrite nthb_word_idc by lia. cbn [negb]. rewrite andb_false_r. reflexivity. }
+    destruct Hcase as (j & Hj & Ej). cbv zeta in Ej. rewrite Ej.
     rewrite (nthb_word_idc j Hj). cbn [negb].
     rewrite (cut_inside j Hj). rewrite Hident. reflexivity.
   Qed.
@@ -354,7 +360,7 @@ Definition ident_at (bs : list N) (l : loc) (name : list N) : bool :=
   match offset_of bs (line0_of l) (col_of l) 0 with
   | Some s =>
     beq_bytes (firstn (length name) (skipn (N.to_nat s) bs)) name &&
-    match skipn (length name) (skipn (N.to_nat s) bs) with c :: _ => negb (is_idc c) | [] => false end &&
+    match skipn (length name) (skipn (N.to_nat s) bs) with c :: _ => negb (is_idc c) | [] => true end &&
     left_ok (rev (firstn (N.to_nat s) bs))
   | None => false
   end.
@@ -362,9 +368,9 @@ Definition ident_at (bs : list N) (l : loc) (name : list N) : bool :=
 Lemma is_ident_idc s : is_ident s = true -> forallb is_idc s = true.
 Proof. unfold is_ident. destruct s; [discriminate|]. intros H. apply andb_true_iff in H. apply H. Qed.
 
-Theorem request_name_at bs l name (col : N) docend :
+Theorem request_name_at bs l name (col : N) :
   ident_at bs l name = true -> (sc l <= Z.of_N col <= ec l)%Z ->
-  request_name bs (line0_of l) col docend = Some (Some name).
+  request_name bs (line0_of l) col false = Some (Some name).
 Proof.
   unfold ident_at. intros H Hcol.
   apply andb_true_iff in H. destruct H as [H Hm]. apply andb_true_iff in H. destruct H as [H Hid].
@@ -374,11 +380,12 @@ Proof.
   apply andb_true_iff in Hm. destruct Hm as [Hm Hleft]. apply andb_true_iff in Hm. destruct Hm as [Hname Hpost].
   apply beq_bytes_eq in Hname.
   set (pre := firstn (N.to_nat s) bs) in *.
-  destruct (skipn (length name) (skipn (N.to_nat s) bs)) as [|pc pr] eqn:Epost; [discriminate|].
-  apply negb_true_iff in Hpost.
-  assert (Hbs : bs = pre ++ name ++ pc :: pr).
+  set (post := skipn (length name) (skipn (N.to_nat s) bs)) in *.
+  assert (Hpost' : match post with c :: _ => is_idc c = false | [] => True end).
+  { destruct post as [|pc pr]; [exact I|]. apply negb_true_iff in Hpost. exact Hpost. }
+  assert (Hbs : bs = pre ++ name ++ post).
   { rewrite <- (firstn_skipn (N.to_nat s) bs) at 1. fold pre. f_equal.
-    rewrite <- (firstn_skipn (length name) (skipn (N.to_nat s) bs)). rewrite Hname, Epost. reflexivity. }
+    rewrite <- (firstn_skipn (length name) (skipn (N.to_nat s) bs)). rewrite Hname. reflexivity. }
   assert (Hlen : (length name <= length (skipn (N.to_nat s) bs))%nat).
   { rewrite <- Hname at 1. rewrite firstn_length. lia. }
   assert (Hnp : length pre = N.to_nat s).
@@ -391,12 +398,16 @@ Proof.
   assert (Hnl : Forall (fun c => (c =? 10) = false) name).
   { apply Forall_forall. intros c Hc. rewrite forallb_forall in Hidc. exact (proj1 (proj2 (idc_facts c (Hidc c Hc)))). }
   assert (Hoff : offset_of bs (line0_of l) col 0 = Some (N.of_nat (length pre + k))).
-  { rewrite Hcolk, Hbs. rewrite (offset_steps name Hnl pre (pc :: pr) (line0_of l) (col_of l) 0); [f_equal; lia| |exact Hk].
+  { rewrite Hcolk, Hbs. rewrite (offset_steps name Hnl pre post (line0_of l) (col_of l) 0); [f_equal; lia| |exact Hk].
     rewrite <- Hbs, Eoff. f_equal. lia. }
-  unfold request_name. rewrite Hoff.
-  assert (Hlt : N.of_nat (length bs) <=? N.of_nat (length pre + k) = false).
-  { apply N.leb_gt. rewrite Hbs at 1. rewrite !app_length. cbn [length]. lia. }
-  rewrite Hlt, andb_false_r.
-  rewrite Hbs. rewrite (cut_name_word pre name (pc :: pr) Hidc Hleft Hpost Hid); [reflexivity| |exact Hk].
-  exists pc, pr. reflexivity.
+  unfold request_name. rewrite Hoff. cbn [andb].
+  rewrite Hbs. rewrite (cut_name_word pre name post Hidc Hleft Hpost' Hid); [reflexivity|exact Hk].
 Qed.
+
+(* the variant of the handlers before fixes/C05-doc-end.diff (docend_empty = true) needed a byte after the identifier *)
+Definition ident_at_inner (bs : list N) (l : loc) (name : list N) : bool :=
+  ident_at bs l name &&
+  match offset_of bs (line0_of l) (col_of l) 0 with
+  | Some s => negb (Nat.eqb (length (skipn (length name) (skipn (N.to_nat s) bs))) 0)
+  | None => false
+  end.
